@@ -1012,13 +1012,12 @@ func (s *rs_sim) proposeConf(r *rs_rep, typ pb.ConfChangeType, target uint64) {
 	s.take(r, rs_jev{Ev: "proposeconf", CC: k}, s.moreApplyFor(r), false)
 }
 
-// readsOK: known finding raft-readindex-counts-learner-acks - read requests are kept out of runs in
-// which a learner can exist (flag -noavoid lifts this).
-func (s *rs_sim) readsOK() bool {
-	return s.noAvoid || (len(s.cfg.Learners) == 0 && s.cfg.Profile != "mixed")
-}
+// readsOK: read requests are part of every run.  (Until the fix of finding
+// raft-readindex-counts-learner-acks they were kept out of runs in which a learner can exist.)
+func (s *rs_sim) readsOK() bool { return true }
 
-// scenarioStaleReadViaLearner (profile readlearner; isolate stage of the finding): the leader is
+// scenarioStaleReadViaLearner (profile readlearner; the schedule of the fixed finding
+// raft-readindex-counts-learner-acks, now a strict stage): the leader is
 // partitioned away together with its learner, the other voters elect a new leader and commit,
 // a read is requested at the old leader: only the learner acknowledges the heartbeat round.
 func (s *rs_sim) scenarioStaleReadViaLearner() {
@@ -1344,7 +1343,7 @@ func (s *rs_sim) randomStep() {
 			s.tick(r)
 		}
 	case x < 36:
-		if isLeader && s.cfg.Profile != "noconf" && s.cfg.Profile != "growone" && s.cfg.Profile != "snapdiv" && s.cfg.Profile != "shrinkq" && s.cfg.Profile != "readlearner" {
+		if isLeader && s.cfg.Profile != "noconf" && s.cfg.Profile != "growone" && s.cfg.Profile != "snapdiv" && s.cfg.Profile != "shrinkq" && s.cfg.Profile != "readlearner" && s.cfg.Profile != "lostvote" {
 			s.proposeConfRandom(r)
 		} else {
 			s.tick(r)
@@ -1775,6 +1774,100 @@ func (s *rs_sim) scenarioVoteSameTerm() {
 		}
 	}
 	s.blocked = map[uint64]bool{}
+}
+
+// scenarioLostVote (profile lostvote; PreVote and CheckQuorum off, 5 voters; from MC_ZRaft_Crash
+// behaviours with a crash between the hard state write and a second candidate of the same term):
+// voter B answers candidate A's vote request for term T and loses power right after the answer
+// left; restarted, it is asked by candidate D, who could not hear A and campaigns for the same
+// term T.  Variant 0: B's vote comes with the move to term T (one write changes term and vote).
+// Variant 1: B reaches term T first by REJECTING candidate C (whose log is behind), so the vote for
+// A changes the vote only.  Whether the write survives the power loss is decided by the sync flag
+// the real node computed (the driver is the disk); what B may answer D afterwards is for the
+// specification to judge on the following lines (VoteOncePerTerm, ElectionSafety).
+func (s *rs_sim) scenarioLostVote(variant int) {
+	s.phase = "lost-vote"
+	s.blocked = map[uint64]bool{}
+	if s.electLeader() == 0 {
+		return
+	}
+	s.calmRounds(3)
+	b := s.leaderID()
+	if b == 0 {
+		return
+	}
+	bv := raft.VerifState(s.reps[b].n)
+	var others []uint64
+	for _, id := range bv.Voters {
+		if id != b && s.live(s.reps[id]) {
+			others = append(others, id)
+		}
+	}
+	if len(others) < 3 {
+		return
+	}
+	a, d, c := others[0], others[1], others[2]
+	ar, br, dr, cr := s.reps[a], s.reps[b], s.reps[d], s.reps[c]
+	blockAll := func() {
+		s.blocked = map[uint64]bool{}
+		for _, id := range s.ids {
+			s.blocked[id] = true
+		}
+	}
+	defer func() { s.blocked = map[uint64]bool{} }()
+	if variant == 1 {
+		// C misses one committed entry
+		s.blocked = map[uint64]bool{c: true}
+		if br.rd != nil {
+			s.finishReady(br)
+		}
+		s.propose(br)
+		s.calmRounds(3)
+	}
+	blockAll()
+	for _, id := range s.ids {
+		if r := s.reps[id]; s.live(r) {
+			s.finishReady(r)
+		}
+	}
+	if !s.live(ar) || !s.live(br) || !s.live(dr) || !s.live(cr) {
+		return
+	}
+	if variant == 1 {
+		s.campaign(cr)
+		s.finishReady(cr)
+		if s.deliverTo(c, b, pb.MsgVote) == 0 {
+			return
+		}
+	}
+	s.campaign(ar)
+	s.finishReady(ar)
+	if !s.live(br) || s.deliverTo(a, b, pb.MsgVote) == 0 || !s.live(br) {
+		return
+	}
+	s.finishReady(br)
+	// power loss at B: whatever was written without a sync is gone
+	br.forceLoss = true
+	s.crash(br)
+	if br.down && !br.gone {
+		s.restart(br)
+	}
+	if !s.live(br) {
+		return
+	}
+	s.drain(br)
+	if !s.live(dr) || raft.VerifState(dr.n).Term >= raft.VerifState(ar.n).Term {
+		return
+	}
+	s.campaign(dr)
+	s.finishReady(dr)
+	if s.live(br) && s.deliverTo(d, b, pb.MsgVote) > 0 {
+		s.inc("scenario_lost_vote_second_candidate_asked")
+	}
+	s.deliverTo(b, a, pb.MsgVoteResp)
+	s.deliverTo(b, d, pb.MsgVoteResp)
+	s.blocked = map[uint64]bool{}
+	s.calmRounds(3)
 }
 
 // scenarioDivergentSuffix (rocks-* storages; from MC_ZRaft_Log behaviours with a leader change):
@@ -2637,6 +2730,11 @@ func raftsim(args []string) error {
 		}
 		if s.cfg.Profile == "readlearner" {
 			s.scenarioStaleReadViaLearner()
+		}
+		if s.cfg.Profile == "lostvote" && len(s.cfg.Voters) >= 4 && !s.cfg.CQ && !s.cfg.PreVote {
+			for v := 0; v < 2 && !s.panicked; v++ {
+				s.scenarioLostVote((int(*seed) + v) % 2)
+			}
 		}
 		if s.cfg.Profile == "shrinkq" && len(s.cfg.Voters) >= 5 && !s.cfg.CQ && !s.cfg.PreVote {
 			s.scenarioShrinkingQuorum()
